@@ -24,6 +24,15 @@ def main():
         seed = 1
     ctx = vlib.Ctx(a.id, a.tier, seed, a.replay)
     rc = 0
+    # Checks never edit the tree under test, but go commands that run inside it under GOFLAGS=-mod=mod (go/packages
+    # loading the repository's own packages with their tests) may append missing go.mod hashes to its go.sum.
+    # Keep the module files byte-identical: remember them and put them back if a go command touched them.
+    guard = {}
+    for fn in ("go.mod", "go.sum"):
+        try:
+            guard[fn] = open(os.path.join(vlib.REPO, fn), "rb").read()
+        except OSError:
+            pass
     try:
         mod = importlib.import_module(a.id)
         mod.run(ctx)
@@ -38,6 +47,13 @@ def main():
         print("INCONCLUSIVE property=%s internal error in the check" % a.id, flush=True)
         rc = 2
     finally:
+        for fn, data in guard.items():
+            try:
+                if open(os.path.join(vlib.REPO, fn), "rb").read() != data:
+                    open(os.path.join(vlib.REPO, fn), "wb").write(data)
+                    print("note: %s of the tree under test was touched by a go command and has been restored" % fn, flush=True)
+            except OSError:
+                pass
         if a.keep:
             print("scratch kept at", ctx.scratch)
         else:
